@@ -56,6 +56,10 @@ type Case struct {
 	// call must have returned while the handlers are still held, and the manager's
 	// goroutines must be gone (C12).
 	CloseCheck bool `json:"close_check,omitempty"`
+	// EndCheck: after the threads are done every call must have ended although
+	// the gated handlers stay blocked (C07: calls waiting for nodes whose
+	// connection broke are completed); results in Result.HungAfterClose.
+	EndCheck bool `json:"end_check,omitempty"`
 	// ProbeMgrs restricts which managers probe (empty = all).
 	ProbeMgrs []int `json:"probe_mgrs,omitempty"`
 	// Drain: before pending calls are cancelled at the end, wait until every
@@ -378,7 +382,7 @@ func Run(c Case, h Hooks) Result {
 			}
 		}
 	}
-	if c.CloseCheck {
+	if c.CloseCheck || c.EndCheck {
 		// every call returns although the handlers are still held
 		for _, ci := range res.Calls {
 			select {
@@ -406,7 +410,7 @@ func Run(c Case, h Hooks) Result {
 		}
 		// the manager's goroutines terminate
 		deadline := time.Now().Add(scen.B)
-		for {
+		for c.CloseCheck {
 			res.Residue = res.Residue[:0]
 			for _, g := range scen.Stacks() {
 				if before[g.ID] {
